@@ -61,23 +61,28 @@ def postVal : Posterior Float → Val
   | .single i => .list [.str "single", indivVal i]
   | .hier is cov => .list [.str "hier", .list (is.map indivVal), covVal cov]
 
-/-- `C14.run config rows selector shared` (the code as it is) →
+/-- `C14.run config rows selector shared [mutates]` (the code as it is; `mutates = false`: the variant in
+    which the controller's own model is left untouched) →
     `err:<kind> stage` | `ok ids regimens posterior sharedAfter` -/
+def runWith (mutates : Bool) (cfgv rowsv selv shv : Val) : Option (List Val) := do
+  let cfg ← parseConfig cfgv
+  let rows ← (← rowsv.list?).mapM parseRow
+  let sel ← Val.opt? parseId selv
+  let sh ← Val.opt? parseEvents shv
+  match setData cfg rows with
+  | .error e => some [errVal (errName e), .str "set_data"]
+  | .ok P =>
+    let regs : Val := match P.regimens with
+      | none => .none
+      | some r => .list (r.map (fun p => .list [.str p.1, evVal p.2]))
+    let res := if mutates then getLogPosterior Legacy.asIs P sel sh else getLogPosteriorPure Legacy.asIs P sel sh
+    match res with
+    | .error e => some [errVal (errName e), .str "get_log_posterior", ofStrs P.ids, regs]
+    | .ok (post, shEnd) => some [.str "ok", ofStrs P.ids, regs, postVal post, optEv shEnd]
+
 def run : Op
-  | [cfgv, rowsv, selv, shv] => do
-    let cfg ← parseConfig cfgv
-    let rows ← (← rowsv.list?).mapM parseRow
-    let sel ← Val.opt? parseId selv
-    let sh ← Val.opt? parseEvents shv
-    match setData cfg rows with
-    | .error e => some [errVal (errName e), .str "set_data"]
-    | .ok P =>
-      let regs : Val := match P.regimens with
-        | none => .none
-        | some r => .list (r.map (fun p => .list [.str p.1, evVal p.2]))
-      match getLogPosterior Legacy.asIs P sel sh with
-      | .error e => some [errVal (errName e), .str "get_log_posterior", ofStrs P.ids, regs]
-      | .ok (post, shEnd) => some [.str "ok", ofStrs P.ids, regs, postVal post, optEv shEnd]
+  | [cfgv, rowsv, selv, shv] => runWith true cfgv rowsv selv shv
+  | [cfgv, rowsv, selv, shv, .bool m] => runWith m cfgv rowsv selv shv
   | _ => none
 
 /-- `C14.spec hasDose hasDur rows observables covObservables` → the declarative reading of the frame:
